@@ -38,8 +38,11 @@ type PoolScenario struct {
 	// Yields: goroutines of the pool park at the yield points injected before every statement
 	// touching the pooled connection / its buffers in the named functions; resuming one is an
 	// event (first in the default order, so choice 0 changes nothing).
-	Yields  []string `json:"yields,omitempty"`
-	Choices []int    `json:"choices"`
+	Yields []string `json:"yields,omitempty"`
+	// StallBytes > 0: pooled connections block a write of more than this many bytes half-way
+	// until the explorer lets the backend drain it ("drain-conn j" event).
+	StallBytes int   `json:"stallBytes,omitempty"`
+	Choices    []int `json:"choices"`
 }
 
 type poolDecision struct {
@@ -66,6 +69,8 @@ type PoolResult struct {
 	// StaleBatch: the batcher was about to write a batch to a pooled connection that was replaced
 	// (by the recovery goroutine) after the batch had been handed to the reader.
 	StaleBatch string
+	// ExpectedStore / FinalStore: backend contents after all callers, direct vs through the pool.
+	ExpectedStore, FinalStore string
 }
 
 // LetStaleBatchRun makes executions continue past the point where a stale batch is about to be
@@ -124,6 +129,16 @@ func RunPool(sc PoolScenario, prefix []int) *PoolResult {
 		cl := store.Clone()
 		res.Expected = append(res.Expected, CallHandler(std.NewHandler(fakemc.NewConn(cl, "direct")), op))
 	}
+	// expected final backend contents: all callers' commands over one direct connection (the
+	// callers use disjoint keys, so the order does not matter)
+	{
+		cl := store.Clone()
+		dh := std.NewHandler(fakemc.NewConn(cl, "direct"))
+		for _, op := range sc.Callers {
+			CallHandler(dh, op)
+		}
+		res.ExpectedStore = cl.Dump()
+	}
 
 	var pconns []*fakemc.Conn
 	refuse := 0
@@ -139,6 +154,7 @@ func RunPool(sc PoolScenario, prefix []int) *PoolResult {
 		c := fakemc.NewConn(store, fmt.Sprintf("pool%d", len(pconns)))
 		c.Async = true
 		c.Hold = true
+		c.StallBytes = sc.StallBytes
 		pconns = append(pconns, c)
 		return c, nil
 	}
@@ -247,6 +263,12 @@ func RunPool(sc PoolScenario, prefix []int) *PoolResult {
 			evs = append(evs, ev{"late", n})
 		}
 		for j, pc := range pconns {
+			if pc.Stalled() {
+				opts = append(opts, fmt.Sprintf("drain-conn%d", j))
+				evs = append(evs, ev{"drain", j})
+			}
+		}
+		for j, pc := range pconns {
 			if pc.PendingFrames() > 0 && !pc.PeerClosed {
 				opts = append(opts, fmt.Sprintf("deliver-conn%d", j))
 				evs = append(evs, ev{"deliver", j})
@@ -293,6 +315,8 @@ func RunPool(sc PoolScenario, prefix []int) *PoolResult {
 			start(n, lateOp)
 		case "deliver":
 			pconns[e.i].Deliver()
+		case "drain":
+			pconns[e.i].Drain()
 		case "advance":
 			// let the batch timer (and any reconnect back-off) fire
 			time.Sleep(poolBatchDelay)
@@ -340,5 +364,6 @@ func RunPool(sc PoolScenario, prefix []int) *PoolResult {
 		}
 	}
 	res.Outcome = strings.Join(o, " | ")
+	res.FinalStore = store.Dump()
 	return res
 }
